@@ -488,3 +488,123 @@ def batch_store_grows(ctx, facts, rule):
                 ctx.ob(rule, f"{b.path.replace(P, '')}:assign", False, "the store is replaced wholesale", site_of(b, bb, idx))
         ctx.count(bodies=1)
     ctx.floor(rule, "operations on the store", n, 8)
+
+
+def segment_packing(ctx, facts, rule):
+    """Slot arithmetic of the proof-input store: the (block, bit range) computed for record k of width w, extracted
+    from insert_segment_small / insert_segment_large and evaluated for all widths and many record indices, must give
+    every record its own bits inside one 256-bit block - otherwise recorded multiplications overwrite each other and
+    drop out of the proof (or the insert panics)."""
+    from rules.C13 import ieval, NoEval
+    ctx.rule(f"{rule}: for every width w in 1..=255 and record index k in 0..1100 the extracted block index and bit range of insert_segment_small satisfy end - start = w, end <= 256 and the global bit intervals of distinct records are disjoint; for widths 256..1024 (multiples of 256) insert_segment_large gives record k the blocks [k*w/256, (k+1)*w/256)")
+    P = "protocol::context::dzkp_validator::MultiplicationInputsBatch::"
+    b = facts.bodies.get(P + "insert_segment_small")
+    if b is None:
+        ctx.missing(rule, "insert_segment_small")
+    else:
+        ctx.count(bodies=1)
+        blk_e = rng_e = None
+        for bb, t in b.calls():
+            fn = F.callee(t)[0] or ""
+            if fn.endswith("IndexMut::index_mut") and "'vec'" in str(flow.expr_of(b, t["args"][0])):
+                blk_e = (bb, flow.fold(flow.expr_of(b, t["args"][1], max_depth=40)))
+            if re.search(r"::get_mut$", fn) and len(t["args"]) > 1:
+                r = flow.expr_of(b, t["args"][1], max_depth=40)
+                if r[0] == "agg" and isinstance(r[1], tuple) and r[1][0] == "std::ops::Range":
+                    rng_e = (bb, flow.fold(r[2][0]), flow.fold(r[2][1]))
+        if blk_e is None or rng_e is None:
+            ctx.missing(rule, "block index / bit range in insert_segment_small")
+        else:
+            wkey = kkey = None
+            for nd in walk_all(blk_e[1]) + walk_all(rng_e[1]) + walk_all(rng_e[2]):
+                nd_ = flow.strip_casts(nd)
+                if nd_[0] == "call" and nd_[1].endswith("Segment::<'a>::len"):
+                    wkey = nd_
+                if nd_[0] == "bin" and nd_[1] == "Sub" and "From::from" in str(nd_[2]) and "first_record" in str(nd_[3]):
+                    kkey = nd_
+            bad = None
+            try:
+                if wkey is None or kkey is None:
+                    raise NoEval("segment length / record offset leaves not found")
+                for w in range(1, 256):
+                    iv = []
+                    for k in range(0, 1100):
+                        env = {wkey: w, kkey: k}
+                        blk, st, en = ieval(blk_e[1], env), ieval(rng_e[1], env), ieval(rng_e[2], env)
+                        if en - st != w or en > 256 or st < 0:
+                            bad = bad or (w, k, f"bit range {st}..{en} in block {blk}")
+                        iv.append((blk * 256 + st, blk * 256 + en, k))
+                    iv.sort()
+                    for (a0, a1, ka), (b0, b1, kb) in zip(iv, iv[1:]):
+                        if b0 < a1:
+                            bad = bad or (w, kb, f"records {ka} and {kb} share bits {b0}..{min(a1, b1)} of the store")
+                    if bad:
+                        break
+                ok = bad is None
+                why = "every record of every width gets its own bits" if ok else f"width {bad[0]}, record {bad[1]}: {bad[2]} - the later record overwrites the earlier one, whose multiplication is then never proved"
+            except NoEval as u:
+                ok, why = False, f"cannot evaluate the slot arithmetic ({u})"
+            ctx.ob(rule, "small:slots-disjoint", ok, why, site_of(b, blk_e[0]))
+    b = facts.bodies.get(P + "insert_segment_large")
+    if b is None:
+        ctx.missing(rule, "insert_segment_large")
+        return
+    ctx.count(bodies=1)
+    base = None
+    for bb, t in b.calls():
+        if (F.callee(t)[0] or "").endswith("::resize_with"):
+            base = (bb, flow.fold(flow.expr_of(b, t["args"][1], max_depth=40)))
+    idx = None
+    for bb, t in b.calls():
+        if (F.callee(t)[0] or "").endswith("IndexMut::index_mut") and "'vec'" in str(flow.expr_of(b, t["args"][0])):
+            idx = (bb, flow.fold(flow.expr_of(b, t["args"][1], max_depth=40)))
+    nblk = None
+    for nd in (walk_all(idx[1]) if idx else []):
+        if nd[0] == "agg" and isinstance(nd[1], tuple) and nd[1][0] == "std::ops::Range":
+            nblk = flow.fold(nd[2][1])
+    if base is None or idx is None or nblk is None:
+        ctx.missing(rule, "block arithmetic in insert_segment_large")
+        return
+    wkey = kkey = None
+    for nd in walk_all(base[1]):
+        nd_ = flow.strip_casts(nd)
+        if nd_[0] == "call" and nd_[1].endswith("Segment::<'a>::len"):
+            wkey = nd_
+        if nd_[0] == "bin" and nd_[1] == "Sub" and "From::from" in str(nd_[2]) and "first_record" in str(nd_[3]):
+            kkey = nd_
+    try:
+        if wkey is None or kkey is None:
+            raise NoEval("segment length / record offset leaves not found")
+        bad = None
+        ival = [nd for nd in walk_all(idx[1]) if nd[0] == "proj" and "Iterator::next" in str(nd)]
+        for w in (256, 512, 768, 1024):
+            for k in range(0, 300):
+                env = {wkey: w, kkey: k}
+                first = ieval(base[1], env)
+                n = ieval(nblk, env)
+                if first != k * (w // 256) or n != w // 256:
+                    bad = bad or (w, k, first, n)
+                if ival:
+                    env2 = dict(env)
+                    env2[flow.strip_casts(ival[0])] = 0
+                    if ieval(idx[1], env2) != first:
+                        bad = bad or (w, k, ieval(idx[1], env2), n)
+        ok = bad is None
+        why = "record k occupies blocks k*w/256 .. (k+1)*w/256" if ok else f"width {bad[0]}, record {bad[1]}: first block {bad[2]}, {bad[3]} block(s) - records overlap or leave the store misaligned"
+    except NoEval as u:
+        ok, why = False, f"cannot evaluate the block arithmetic ({u})"
+    ctx.ob(rule, "large:blocks-disjoint", ok, why, site_of(b, base[0]))
+
+
+def walk_all(e):
+    out = []
+    if isinstance(e, tuple):
+        out.append(e)
+        for x in e[1:]:
+            if isinstance(x, tuple):
+                if x and isinstance(x[0], str):
+                    out.extend(walk_all(x))
+                else:
+                    for y in x:
+                        out.extend(walk_all(y))
+    return out
